@@ -201,6 +201,70 @@ func craftXOverflow(c *h.Ctx, cv elliptic.Curve) (pub *ecdsa.PublicKey, digest [
 func runC13(c0 *h.Ctx) {
 	cvs := curvesAll()
 	c0.Parallel(len(cvs), func(i int, c *h.Ctx) { runC13Curve(c, cvs[i]) })
+	c13Generic(c0)
+}
+
+// c13Generic: curves given as plain *elliptic.CurveParams (the generic, non-assembly implementation: no CombinedMult,
+// no Inverse) take other branches of sign / verify; and the key types' methods, in lockstep with crypto/ecdsa.
+func c13Generic(c *h.Ctx) {
+	for _, named := range []elliptic.Curve{elliptic.P224(), elliptic.P256(), elliptic.P384(), elliptic.P521()} {
+		curve := elliptic.Curve(named.Params())
+		name := "generic-" + curve.Params().Name
+		N := curve.Params().N
+		sk, err := ecdsa.GenerateKey(curve, crand.Reader)
+		if err != nil {
+			c.Violation("GenerateKey fails on a curve given by its parameters", map[string]any{"curve": name})
+			continue
+		}
+		stdSk := &stdecdsa.PrivateKey{PublicKey: stdecdsa.PublicKey{Curve: curve, X: sk.X, Y: sk.Y}, D: sk.D}
+		for _, dl := range []int{0, 20, 32, 48, 64, 66, 80} {
+			digest := rnd(c, dl)
+			r, s, err := ecdsa.Sign(crand.Reader, sk, digest)
+			if err != nil {
+				c.Violation("Sign fails on a curve given by its parameters", map[string]any{"curve": name})
+				continue
+			}
+			r2, s2, _ := stdecdsa.Sign(crand.Reader, stdSk, digest)
+			one := big.NewInt(1)
+			type rs struct{ r, s *big.Int }
+			cands := []rs{{r, s}, {r2, s2}, {r, new(big.Int).Sub(N, s)}, {new(big.Int).Add(r, one), s}, {r, new(big.Int).Add(s, one)}, {big.NewInt(0), s}, {r, big.NewInt(0)}, {N, s}, {r, N},
+				{new(big.Int).Add(r, N), s}, {r2, s}, {new(big.Int).Neg(r), s}}
+			for _, x := range cands {
+				var got, want bool
+				p1, m1 := h.Protect(func() { got = ecdsa.Verify(&sk.PublicKey, digest, x.r, x.s) })
+				p2, _ := h.Protect(func() { want = stdecdsa.Verify(&stdSk.PublicKey, digest, x.r, x.s) })
+				c.Count(name+":rs:generic-curve", 1, name+x.r.String()+x.s.String())
+				if p1 != p2 || got != want {
+					c.Violation("Verify accepts exactly the signatures crypto/ecdsa accepts (curve given as *elliptic.CurveParams)", map[string]any{"curve": name, "digest": h.Hex(digest), "r": x.r.String(), "s": x.s.String(), "fork": got, "std": want, "panic": m1})
+				}
+			}
+			a1, e1 := ecdsa.SignASN1(crand.Reader, sk, digest)
+			if e1 != nil || !stdecdsa.VerifyASN1(&stdSk.PublicKey, digest, a1) || !ecdsa.VerifyASN1(&sk.PublicKey, digest, a1) {
+				c.Violation("SignASN1 output verifies under crypto/ecdsa and under the fork (curve given as *elliptic.CurveParams)", map[string]any{"curve": name})
+			}
+		}
+		// key methods
+		pk2 := &ecdsa.PublicKey{Curve: curve, X: new(big.Int).Set(sk.X), Y: new(big.Int).Set(sk.Y)}
+		pkNamed := &ecdsa.PublicKey{Curve: named, X: sk.X, Y: sk.Y}
+		other, _ := ecdsa.GenerateKey(curve, crand.Reader)
+		stdPk2 := &stdecdsa.PublicKey{Curve: curve, X: pk2.X, Y: pk2.Y}
+		stdNamed := &stdecdsa.PublicKey{Curve: named, X: sk.X, Y: sk.Y}
+		stdOther := &stdecdsa.PrivateKey{PublicKey: stdecdsa.PublicKey{Curve: curve, X: other.X, Y: other.Y}, D: other.D}
+		pub, okPub := sk.Public().(*ecdsa.PublicKey)
+		eq := []bool{sk.PublicKey.Equal(pk2), sk.PublicKey.Equal(pkNamed), sk.PublicKey.Equal(&other.PublicKey), sk.PublicKey.Equal(stdPk2), sk.Equal(sk), sk.Equal(other),
+			sk.Equal(&ecdsa.PrivateKey{PublicKey: *pk2, D: new(big.Int).Set(sk.D)}), sk.Equal(stdSk), sk.Equal(&sk.PublicKey)}
+		eqStd := []bool{stdSk.PublicKey.Equal(stdPk2), stdSk.PublicKey.Equal(stdNamed), stdSk.PublicKey.Equal(&stdOther.PublicKey), stdSk.PublicKey.Equal(pk2), stdSk.Equal(stdSk), stdSk.Equal(stdOther),
+			stdSk.Equal(&stdecdsa.PrivateKey{PublicKey: *stdPk2, D: new(big.Int).Set(sk.D)}), stdSk.Equal(sk), stdSk.Equal(&stdSk.PublicKey)}
+		c.Count(name+":api:key-methods", len(eq)+1, name)
+		if !okPub || pub != &sk.PublicKey {
+			c.Violation("Public() returns the key's own public half (as crypto/ecdsa does)", map[string]any{"curve": name})
+		}
+		for i := range eq {
+			if eq[i] != eqStd[i] {
+				c.Violation("Equal agrees with crypto/ecdsa (same value / other curve object / other key / foreign type)", map[string]any{"curve": name, "case": i, "fork": eq[i], "std": eqStd[i]})
+			}
+		}
+	}
 }
 
 func runC13Curve(c *h.Ctx, cv curveT) {
